@@ -69,38 +69,93 @@ def macro_rules(chk, prog):
            f"only IntoJson: {sorted(into_t - from_t)}; only FromJson: {sorted(from_t - into_t)}")
 
 
+def _returns(prog, b):
+    """[(block, guard labels of the enum tests on the way, description of the value)] for every definition of the return place."""
+    out = []
+    for d in b.defs().get(0, []):
+        blk = d[0]
+        if d[2] == "call":
+            val = ("call", d[3].get("resolved") or d[3].get("callee"), [core.describe(prog, b, a) for a in d[3]["args"]], blk)
+        elif d[3]["pl"]["p"]:
+            continue
+        else:
+            val = core.describe_rv(prog, b, d[3]["rv"]) if d[3]["rv"]["k"] != "use" else core.describe(prog, b, d[3]["rv"]["o"])
+        labs = [(lab, dd) for s_, lab, dd, info in core.guards_dominating(prog, b, blk)]
+        out.append((blk, labs, val))
+    return out
+
+
+def _is_variant(d, name):
+    return isinstance(d, tuple) and d and d[0] == "variant" and d[2] == name
+
+
 def option_vec(chk, prog):
-    """R3: Option <-> Null, Vec <-> Array in traits.rs."""
-    def table(trait_ref_rx, method):
-        fs = prog.impl_fn(trait_ref_rx, method)
-        if not fs:
-            return None, None
-        ms = tables.fn_tables(prog, fs[0])
-        return fs[0], (ms[0] if ms else None)
-    f, m = table(r"^<std::option::Option<T> as humphrey_json::traits::IntoJson>$", "to_json")
-    chk.floor("IntoJson for Option<T>", 1 if m else 0, 1)
-    if m:
-        mp, rest, dup = tables.simple_map(m, key_kinds=("path",))
-        none = mp.get("None")
-        chk.ob("R3.option", f, "None -> Value::Null", none == ("path", "humphrey_json::value::Value::Null"), f"None serialises as {none}")
-        some = [v for keys, g, v, line, arm in core.match_table(m) if keys and keys[0][0] == "ctor" and tables.norm_path(keys[0][1]) == "Some"]
-        chk.ob("R3.option", f, "Some(v) -> v.to_json()", bool(some) and some[0][0] == "method" and str(some[0][1]).endswith("IntoJson::to_json"), f"{some}")
-    f, m = table(r"^<std::option::Option<T> as humphrey_json::traits::FromJson>$", "from_json")
-    chk.floor("FromJson for Option<T>", 1 if m else 0, 1)
-    if m:
-        mp, rest, dup = tables.simple_map(m, key_kinds=("path",))
-        v = mp.get("humphrey_json::value::Value::Null")
-        chk.ob("R3.option", f, "Value::Null -> None", v is not None and tables.unwrap(v, "Ok") == ("path", "None") or (v is not None and "None" in str(v)), f"{v}")
-        other = [val for keys, g, val, line in rest if keys == [("rest",)]]
-        chk.ob("R3.option", f, "any other value -> T::from_json(value).map(Some)", bool(other) and "from_json" in str(other[0]) and "Some" in str(other[0]), f"{other}")
-    f, m = table(r"^<std::vec::Vec<T> as humphrey_json::traits::FromJson>$", "from_json")
-    chk.floor("FromJson for Vec<T>", 1 if m else 0, 1)
-    if m:
-        rows = core.match_table(m)
-        arr = [val for keys, g, val, line, arm in rows if keys and keys[0][0] == "ctor" and str(keys[0][1]).endswith("Value::Array")]
-        chk.ob("R3.vec", f, "Value::Array(v) -> elementwise from_json in order", bool(arr) and "iter" in str(arr[0]) and "collect" in str(arr[0]) and "rev" not in str(arr[0]), f"{arr}")
-        oth = [val for keys, g, val, line, arm in rows if keys == [("rest",)]]
-        chk.ob("R3.vec", f, "non-array -> Err", bool(oth) and "Err" in str(oth[0]), f"{oth}")
+    """R3: Option <-> Null, Vec <-> Array in traits.rs (decided on the MIR: which value is returned under which variant test)."""
+    dc = core.desc_contains
+    # ---- Option -> JSON
+    fs = prog.impl_fn(r"^<std::option::Option<T> as humphrey_json::traits::IntoJson>$", "to_json")
+    chk.floor("IntoJson for Option<T>", len(fs), 1)
+    for f in fs:
+        b = prog.bodies[f]
+        rs = _returns(prog, b)
+        nulls = [(blk, labs) for blk, labs, v in rs if _is_variant(v, "Null")]
+        convs = [(blk, labs, v) for blk, labs, v in rs if isinstance(v, tuple) and v[0] == "call" and str(v[1]).endswith("IntoJson::to_json")]
+        other = [v for blk, labs, v in rs if not _is_variant(v, "Null") and not (isinstance(v, tuple) and v[0] == "call" and str(v[1]).endswith("IntoJson::to_json"))]
+        chk.ob("R3.option", f, "None -> Value::Null", bool(nulls) and all(any(l == "None" for l, _ in labs) for blk, labs in nulls), f"Null returned under {[[l for l, _ in labs] for blk, labs in nulls]}")
+        chk.ob("R3.option", f, "Some(v) -> v.to_json()", bool(convs) and all(any(l == "Some" for l, _ in labs) and dc(v[2][0], lambda y: y[0] == "param" and y[1] == 1) for blk, labs, v in convs) and not other,
+               f"{[core.short(str(v))[:80] for blk, labs, v in convs]} other returns: {[core.short(str(v))[:60] for v in other]}")
+    # ---- JSON -> Option
+    fs = prog.impl_fn(r"^<std::option::Option<T> as humphrey_json::traits::FromJson>$", "from_json")
+    chk.floor("FromJson for Option<T>", len(fs), 1)
+    for f in fs:
+        b = prog.bodies[f]
+        rs = _returns(prog, b)
+        none_ok = [(blk, labs) for blk, labs, v in rs if _is_variant(v, "Ok") and v[3] and _is_variant(v[3][0], "None")]
+        chk.ob("R3.option", f, "Value::Null -> Ok(None)", bool(none_ok) and all(any(l == "Null" for l, _ in labs) for blk, labs in none_ok),
+               f"Ok(None) returned under {[[l for l, _ in labs] for blk, labs in none_ok]}")
+        rest = [(blk, labs, v) for blk, labs, v in rs if not (_is_variant(v, "Ok") and v[3] and _is_variant(v[3][0], "None"))]
+        good = True
+        for blk, labs, v in rest:
+            from_conv = dc(v, lambda y: y[0] == "call" and str(y[1]).endswith("FromJson::from_json") and dc(y[2], lambda z: z[0] == "param" and z[2] == "value"))
+            under_null = any(l == "Null" for l, _ in labs)
+            wraps_some = (_is_variant(v, "Ok") and v[3] and _is_variant(v[3][0], "Some")) or dc(v, lambda y: y[0] == "call" and str(y[1]).endswith("::map")) or \
+                (isinstance(v, tuple) and v[0] == "call" and str(v[1]).endswith("from_residual"))
+            good = good and from_conv and not under_null and wraps_some
+        chk.ob("R3.option", f, "any other value -> T::from_json(value) wrapped in Some (errors propagated)", bool(rest) and good, f"{[core.short(str(v))[:90] for blk, labs, v in rest]}")
+    # ---- JSON -> Vec
+    fs = prog.impl_fn(r"^<std::vec::Vec<T> as humphrey_json::traits::FromJson>$", "from_json")
+    chk.floor("FromJson for Vec<T>", len(fs), 1)
+    for f in fs:
+        b = prog.bodies[f]
+        fam = [b] + prog.all_closures_of(f)
+        rs = _returns(prog, b)
+        errs = [(blk, labs, v) for blk, labs, v in rs if _is_variant(v, "Err")]
+        chk.ob("R3.vec", f, "non-array -> Err(TypeError)", bool(errs) and all(not any(l == "Array" for l, _ in labs) and dc(v, lambda y: _is_variant(y, "TypeError")) for blk, labs, v in errs),
+               f"{[core.short(str(v))[:60] for blk, labs, v in errs]}")
+        conv = [(bb, blk, t) for bb in fam for blk, t in bb.calls_to(r"FromJson::from_json$")]
+        elementwise = False
+        for bb, blk, t in conv:
+            a = core.describe_r(prog, bb, t["args"][0])
+            # the converted value is an element: the closure's own parameter, or the item produced by iterating the array payload
+            if bb.kind == "closure" or dc(a, lambda y: y[0] == "call" and str(y[1]).endswith("::next")):
+                elementwise = True
+        from_payload = any(dc(core.describe(prog, b, t["args"][0]), lambda y: y[0] == "param" and y[2] == "value")
+                           for blk, t in b.calls_to(r"<impl \[T\]>::iter$|IntoIterator>::into_iter$|IntoIterator::into_iter$|Deref>::deref$"))
+        rev = [t["callee"] for bb in fam for blk, t in bb.calls_to(r"Iterator::rev$|::reverse$|::insert$|::push_front$")]
+        chk.ob("R3.vec", f, "Value::Array(v) -> elementwise from_json in order", elementwise and from_payload and not rev,
+               f"elementwise={elementwise} iterates the array payload={from_payload} reordering calls={rev}")
+    # ---- Vec -> JSON
+    fs = prog.impl_fn(r"^<std::vec::Vec<T> as humphrey_json::traits::IntoJson>$", "to_json")
+    chk.floor("IntoJson for Vec<T>", len(fs), 1)
+    for f in fs:
+        b = prog.bodies[f]
+        fam = [b] + prog.all_closures_of(f)
+        rs = _returns(prog, b)
+        arr = [v for blk, labs, v in rs if _is_variant(v, "Array")]
+        conv = [(bb, blk, t) for bb in fam for blk, t in bb.calls_to(r"IntoJson::to_json$")]
+        rev = [t["callee"] for bb in fam for blk, t in bb.calls_to(r"Iterator::rev$|::reverse$|::insert$|::push_front$")]
+        chk.ob("R3.vec", f, "Vec -> Value::Array of the elements in order", len(arr) == len(rs) and bool(arr) and bool(conv) and not rev,
+               f"returns {[core.short(str(v))[:60] for blk, labs, v in rs]}; conversions {len(conv)}; reordering {rev}")
     # every element, exactly once: between iter() and collect() only `map` (MIR, both directions)
     ADAPT = r"Iterator::(filter|filter_map|skip|take|skip_while|take_while|step_by|rev|flat_map|flatten|chain|zip|scan|inspect|dedup|peekable|cycle|fuse|map_while|enumerate|map)$"
     for rx_, meth in ((r"^<std::vec::Vec<T> as humphrey_json::traits::FromJson>$", "from_json"), (r"^<std::vec::Vec<T> as humphrey_json::traits::IntoJson>$", "to_json")):
@@ -117,14 +172,6 @@ def option_vec(chk, prog):
                     if c.calls_to(r"(FromJson|IntoJson)::(from_json|to_json)$"):
                         ok_c = True
                 chk.ob("R3.vec", fb_, f"the map closure calls {meth} on the element", ok_c, "")
-    fs = prog.impl_fn(r"^<std::vec::Vec<T> as humphrey_json::traits::IntoJson>$", "to_json")
-    chk.floor("IntoJson for Vec<T>", len(fs), 1)
-    if fs:
-        b = prog.bodies[fs[0]]
-        d = core.describe(prog, b, 0)
-        ok = d[0] == "variant" and d[2] == "Array" and core.desc_contains(d, lambda y: y[0] == "call" and y[1].endswith("::iter")) and not core.desc_contains(d, lambda y: y[0] == "call" and y[1].endswith("::rev"))
-        chk.ob("R3.vec", fs[0], "Vec -> Value::Array of the elements in order", ok, f"{d[0]} {d[2] if len(d) > 2 else ''}")
-
 
 def run(chk):
     prog = chk.use(core.load("A", fresh=(chk.tier == "thorough")))
